@@ -25,6 +25,39 @@ add("C02", "enumeration+proptest-sharded",
     "reference segmentation.",
     "Exhaustive only for n<=9 and the three listed texts; beyond that exploration.")
 
+add("C03", "proptest-sharded",
+    "property-based testing: round-trip write->parse on generated sentences and idempotence on generated accepted strings",
+    "Generated fully segmented sentences (tags/surfaces containing every delimiter, multi-byte) are written and re-parsed and must come back equal up to trailing absent tags; strings from four generator classes that the parser accepts must reach a write/parse fixed point.",
+    "Oracle is the round-trip relation itself plus UTF-8 validity; no claim beyond the generated cases.")
+add("C04", "proptest-sharded",
+    "property-based testing: round-trip write->parse of the partial-annotation format on generated sentences",
+    "Generated sentences with any label vector and tags (including the format's own delimiters) on any character are written and re-parsed; text, every label and every tag row must be equal up to trailing absent tags.",
+    "Round-trip relation only; exploration.")
+add("C05", "proptest-sharded",
+    "property-based testing + stateful histories: totality, differential against reference parsers, state invariants",
+    "Generated strings (valid, mutated, delimiter-dense with NUL, arbitrary Unicode) through all six entry points, compared with reference parsers written from the documentation where it determines the result; generated call histories on one sentence compared step by step with freshly constructed sentences.",
+    "Acceptance is compared only where documented (lone trailing backslash, NUL inside a partial-annotation tag are left open).")
+add("C06", "proptest-sharded",
+    "property-based testing: generated tag models x texts x boundary edits against a brute-force per-token classifier (RefTags)",
+    "Generated models with tag models, boundaries predicted then edited (incl. unknown), optional earlier tagging by another predictor; tags, n_tags and stored candidate scores compared with an independent reference.",
+    "Exploration; relative positions limited to 0..=window as the property states.")
+add("C07", "proptest-sharded+fault-enumeration",
+    "property-based testing of the round trip + exhaustive enumeration of truncation points and injected I/O faults per generated file",
+    "Generated model files and the golden file: byte-identical round trip through read/read_slice/write/to_vec, identical predictions, exact trailing bytes; every proper prefix, header variant, reader fault position and writer fault position of each file must give Err without panic.",
+    "Per file the prefix/fault positions are enumerated completely (strided only in the middle of files > 4 KiB); files themselves are sampled.")
+add("C08", "proptest-sharded+thread-stress",
+    "stateful property-based testing: differential fresh-vs-reused sentence over generated histories; multi-thread differential stress on a shared predictor",
+    "Generated histories of updates/predicts/fill_tags/reset_tags/filters/edits over six predictors of two models followed by the documented final segment; full observation compared with a fresh sentence. One predictor shared by 8/16 threads compared with the single-threaded run; Send+Sync asserted at compile time.",
+    "The harness does not own the thread schedule (nothing to instrument in Predictor): a race needing a rare interleaving can be missed.")
+add("C14", "proptest-sharded",
+    "property-based testing: round-trip differential original vs deserialised predictor, tied to the reference model",
+    "Generated models -> predictors (all scorer variants) -> serialize -> deserialize (+ second generation) with trailing bytes; all three predictors must agree with each other and with RefScore/RefTags on every text; rest slice exact.",
+    "deserialize_from_slice_unchecked is only fed self-produced bytes, as the property states.")
+add("C15", "proptest-sharded",
+    "property-based testing: reference rule + frame condition + idempotence on generated sentences",
+    "Generated sentences (any labels incl. unknown, any tags) over a grapheme-cluster-heavy pool; after-state compared with an independent reference rule applied to the before-state; text/types/n_tags/scores untouched; f(f(s)) = f(s).",
+    "unicode-segmentation is trusted for what a grapheme cluster is.")
+
 PLANNED = {
 }
 
